@@ -30,6 +30,13 @@ CHECKS = {
          "key-list correspondence over generated update histories; oracle on the real files after every step.",
          "Trusted: Lean kernel + standard axioms; POSIX write/truncate semantics (assumed); the Thrift serialiser (C10). ",
          "Lean 4 proof (byte-level model, regenerated I/O sequence) + correspondence", "§6 C16"),
+ "C19": ("Lean 4 theorems over the ordered list of filesystem operations of a multi-file append (Impl.Dataset.appendOps): for EVERY crash "
+         "point k up to the first _metadata operation a fresh open reads exactly the previous rows; no operation of the append targets "
+         "a file the dataset references (fresh part numbers by find_max_part). The operation list is tied to the real open_with/mkdirs "
+         "call sequence by trace correspondence, and every k is also injected on the real code (exhaustive in k per scenario).",
+         "Trusted: Lean kernel + standard axioms; filesystem semantics assumed (failed call has no effect, 'wb' truncates at open); path text / "
+         "PART_ID regex outside the model (tied by correspondence). Not modelled: partial writes inside one write call, durability.",
+         "Lean 4 proof (ordering/freshness invariant) + exhaustive fault injection correspondence", "§6 C19"),
 }
 
 def main():
